@@ -15,6 +15,17 @@ package ontology
 // Reference model (written from the property statement): a set of resources, a set of
 // (from, type, to) edges, a per-transaction overlay of pending sets/deletes merged over the
 // live committed state (the Writer.NewRetrieve contract), and a plain graph search.
+//
+// Non-trivial case: at least two relationships defined and committed, at least one delete
+// that removed something, and at least one traversal query with a non-empty answer.
+//
+// Findings that are recorded as known are repaired in place (a wrongly refused edge is left
+// out of the model, a wrongly accepted edge is deleted again, a descendant walk that cannot
+// terminate is not entered) so that the rest of the history is still judged.
+//
+// Development aids (never set by /verif/bin/check): VERIF_C16_ASSUME=<regexp over
+// "class sig"> treats matching failures as known; VERIF_C16_NOGUARD=1 lets a replay enter a
+// descendant walk that does not terminate (the process dies of stack exhaustion).
 
 import (
 	"context"
@@ -376,7 +387,6 @@ type c16Run struct {
 	ctx   context.Context
 	c     c16Case
 	st    *drv.Stats
-	kvc   func() error
 	db    *gorp.DB
 	o     *Ontology
 	pool  []ID
@@ -389,6 +399,9 @@ type c16Run struct {
 	committedDefs, appliedDeletes, nonEmptyQueries int
 	assume                                         *regexp.Regexp
 	noGuard                                        bool
+	// trace: outcome of every operation (part of the case hash, so that the determinism
+	// self-test compares behaviour and not only the script)
+	trace strings.Builder
 }
 
 func (r *c16Run) hasRes(v *c16View, id ID) bool {
@@ -803,6 +816,11 @@ func (r *c16Run) checkQuery(v *c16View, q c16Query, sweep bool) *drv.Failure {
 		starts[i] = r.id(s)
 	}
 	got, err := r.realQuery(v, starts, q)
+	if !sweep && q.Limit == 0 {
+		// (which resources a limited query keeps depends on the order of the index's
+		// per-transaction overlay, a Go map; the oracle does not depend on it)
+		fmt.Fprintf(&r.trace, "q%d:%v;", len(c16Set(got)), err != nil)
+	}
 	what := "query " + c16IDs(starts)
 	hopSig := ""
 	for _, h := range q.Hops {
@@ -1633,6 +1651,7 @@ func (r *c16Run) defineRels(v *c16View, w dagWriter, from ID, rt RelationshipTyp
 		err = w.DefineRelationship(r.ctx, from, rt, tos[0])
 	}
 	what := fmt.Sprintf("%s(%s -%s-> %s)", name, from, rt, c16IDs(tos))
+	fmt.Fprintf(&r.trace, "d%v;", err != nil)
 	form := "single"
 	if many {
 		form = "one-to-many"
@@ -1832,7 +1851,8 @@ func runC16(t *testing.T, c c16Case, st *drv.Stats) (fail *drv.Failure) {
 		}
 		sb.WriteString(";")
 	}
-	st.Case(drv.Hash64(sb.String(), strconv.FormatBool(c.Overlap), strconv.FormatBool(c.FinalCommit)),
+	fmt.Fprintf(&r.trace, "end:%d/%d", len(r.cres), len(r.crel))
+	st.Case(drv.Hash64(sb.String(), strconv.FormatBool(c.Overlap), strconv.FormatBool(c.FinalCommit), r.trace.String()),
 		r.committedDefs >= 2 && r.appliedDeletes >= 1 && r.nonEmptyQueries >= 1)
 	return nil
 }
